@@ -93,11 +93,13 @@ static void ref_perm(const LHAFileHeader *h)
 		ref_flag(p, 0040, 'r'); ref_flag(p, 0020, 'w'); ref_flag(p, 0010, 'x');
 		ref_flag(p, 0004, 'r'); ref_flag(p, 0002, 'w'); ref_flag(p, 0001, 'x');
 	} else {
+		/* OS name, filled with blanks to 10 columns (no name is longer) */
 		const char *n = ref_os_name(h->os_type);
-		unsigned i, len = 0;
-		while (n[len] != '\0') ++len;
-		ref_text(n);
-		for (i = len; i < 10; ++i) ref_b(' ');
+		unsigned i, ended = 0;
+		for (i = 0; i < 10; ++i) {
+			if (!ended && n[i] == '\0') ended = 1;
+			ref_b(ended ? (u8) ' ' : (u8) n[i]);
+		}
 	}
 }
 
@@ -132,10 +134,12 @@ static void ref_ratio_row(const LHAFileHeader *h)
 /* ---- METHOD CRC ---- */
 static void ref_method_crc(const LHAFileHeader *h)
 {
-	unsigned i, len = 0;
-	while (len < 5 && h->compress_method[len] != '\0') ++len;
-	for (i = 0; i < len; ++i) ref_b((u8) h->compress_method[i]);
-	for (i = len; i < 5; ++i) ref_b(' ');
+	unsigned i, ended = 0;
+	/* the method string (at most 5 characters), filled with blanks to 5 columns */
+	for (i = 0; i < 5; ++i) {
+		if (h->compress_method[i] == '\0') ended = 1;
+		ref_b(ended ? (u8) ' ' : (u8) h->compress_method[i]);
+	}
 	ref_b(' ');
 	ref_num('x', REF_ZERO, 4, REF_NOPREC, (u64) h->crc);
 }
